@@ -29,7 +29,7 @@ INFO = {
     "priority.  Where a matching candidate carries an explicit finish/nofinish mark only the weaker statement is "
     "asserted (the chosen terminal matches and has the highest matching priority).",
     "bounds": {
-        "quick": {"pools": 5, "priorities": "0..1", "len(w)": "<= 3", "marks": "none + 2 mark vectors on one pool"},
+        "quick": {"pools": "5 in the 3-state skeleton + 3 in a flat skeleton (all four terminals expected in one LR state)", "priorities": "0..1", "len(w)": "<= 3", "marks": "none + 2 mark vectors on one pool"},
         "thorough": {"pools": 12, "priorities": "0..2", "len(w)": "<= 3", "ignore_case": "both"},
     },
     "outside": "priorities >= 10^7 or string terminals >= 500 chars (fixed-width sort key), more than 4 candidate "
@@ -64,6 +64,9 @@ POOLS = {
     "strings-2": {"A": ("s", "aa"), "B": ("s", "a"), "C": ("r", "a+"), "D": ("r", "aa?")},
     "case": {"A": ("s", "a"), "B": ("s", "Ab"), "C": ("r", "[a-c]+"), "D": ("r", "[A-B]+")},
     "regex-only": {"A": ("r", "a"), "B": ("r", "ab?"), "C": ("r", "[a-c]+"), "D": ("r", "a[a-c]?")},
+    # a keyword and a non-keyword string extending it by one character; a shorter regex next to two tying longer ones
+    "keyword-ext": {"A": ("k", "ab"), "B": ("s", "ab-"), "C": ("r", "[a-c]+"), "D": ("s", "a")},
+    "short-prefer": {"A": ("r", "a"), "B": ("r", "a[a-c]"), "C": ("r", "[a-b]b?"), "D": ("r", "ab?")},
 }
 SLOTS = ["A", "B", "C", "D"]
 ALPHA = "abcAx y.-"
@@ -115,6 +118,15 @@ def cases(tier, seed):
                         "params": {"pool": pn, "mode": mode, "pa": pa, "pb": pb, "prmax": prmax, "marks": [None] * 4, "icase": False},
                         "budget_s": 3000,
                     })
+    flat_pools = ["regex-overlap", "keyword-ext", "short-prefer"] if tier == "quick" else ["regex-overlap", "keyword-ext", "short-prefer", "str-vs-regex", "regex-equal-len", "regex-only", "two-custom"]
+    for pn in flat_pools:
+        for pa in range(prmax + 1):
+            for pb in range(prmax + 1):
+                out.append({
+                    "name": "%s|lr-flat|prior(A)=%d|prior(B)=%d" % (pn, pa, pb),
+                    "params": {"pool": pn, "mode": "lr", "skel": "flat", "pa": pa, "pb": pb, "prmax": prmax, "marks": [None] * 4, "icase": False},
+                    "budget_s": 3000,
+                })
     markvecs = [[False, None, None, None], [None, None, True, None], [None, False, None, True]]
     for pn in (["str-vs-regex"] if tier == "quick" else ["str-vs-regex", "custom", "strings-2"]):
         for mv in markvecs[: 2 if tier == "quick" else 3]:
@@ -147,7 +159,8 @@ def build(params, symbolic):
     twin = params.get("twin")
     keyword = any(k == "k" for k, _ in pool.values())
     recs = {s: custom_rec(pool[s][1]) for s in SLOTS if pool[s][0] == "c"}
-    if mode == "lr":
+    flat = params.get("skel") == "flat"
+    if mode == "lr" and not flat:
         text = grammar_text(pool, keyword)
     else:
         text = grammar_text(pool, keyword).replace("S: 'x' G1 | 'y' G2 | G3;\nG1: A | B;\nG2: B | C | D;\nG3: A | D;", GLR_TEXT_HEAD)
@@ -287,12 +300,14 @@ def build(params, symbolic):
                 return "GLR pursued %r, expected every top-priority match %r" % (sorted(real[1]), sorted(want))
             bump(stats, "glr_multi" if len(want) > 1 else "glr_single")
             return True
-        # LR: first token among {A, D, x, y}
+        # LR: first token among {A, D, x, y} (3-state skeleton) or among all four (flat skeleton)
         seq = []
         state_exp = ["A", "D"]
+        if flat:
+            state_exp = list(SLOTS)
         # 'x' / 'y' are plain string terminals of default priority 10 > any pool priority
         first = None
-        if pos < n:
+        if pos < n and not flat:
             if xt.recognizer(w, pos):
                 first = "x"
             elif yt.recognizer(w, pos):
